@@ -5,7 +5,7 @@ set -e
 HERE="$(cd "$(dirname "$0")" && pwd)"
 cd "$HERE"
 # gate: no axioms / admits / disabled checks anywhere in the development
-if grep -rnE '\b(Admitted|admit|Axiom|Parameter|Conjecture|Unset Guard|bypass_check|Admit Obligations)\b' coq --include='*.v' | grep -v '^\s*(\*' ; then
+if grep -rnE '\b(Admitted|admit|Axiom|Parameter|Conjecture|Unset Guard|bypass_check|Admit Obligations)\b' coq --include='*.v' --include='*.v.in' | grep -v '^\s*(\*' ; then
   echo "forbidden construct in coq/" >&2; exit 2
 fi
 cd coq
